@@ -365,7 +365,15 @@ def rule_noalias(run):
             else: run.unknown(key, norm(a), where=tg.where(c))
 
 
+def rule_cacheinv(run):
+    run.rule('CACHEINV', 'a value memoised from node positions / column centres (the column search tree of column_mapping, bounding boxes) is '
+             'reset by every function that moves nodes or columns', floor=1)
+    from .cacheinv import cacheinv_rule
+    cacheinv_rule(run, 'mulgrids', only=lambda m: m.name in ('column_mapping', 'layer_mapping', 'block_mapping', 'closest_col'))
+
+
 def check(run):
+    run.guarded('CACHEINV', rule_cacheinv)
     run.guarded('TOTAL', rule_total)
     run.guarded('ATMKEY', rule_atmkey)
     run.guarded('CASE', rule_case)
